@@ -103,4 +103,238 @@ theorem integrateQuat_unit_of (q : ℝ × ℝ × ℝ × ℝ) (w : ℝ × ℝ × 
     · exact absurd h' (not_lt.mpr hb)
     · exact h'
 
+/-! ### `mj_integratePosInd`: structure of the result -/
+
+/-- the quaternion slots of a qpos vector with the given joint layout -/
+def quatsOf {α : Type} : List JType → List α → Option (List (α × α × α × α))
+  | [], [] => some []
+  | [], _ => none
+  | .free :: ts, qp => do
+      let (_, r1) ← take3 qp
+      let (q, r2) ← take4 r1
+      let rest ← quatsOf ts r2
+      pure (q :: rest)
+  | .ball :: ts, qp => do
+      let (q, r) ← take4 qp
+      let rest ← quatsOf ts r
+      pure (q :: rest)
+  | .slide :: ts, qp => do
+      let (_, r) ← take1 qp
+      quatsOf ts r
+  | .hinge :: ts, qp => do
+      let (_, r) ← take1 qp
+      quatsOf ts r
+
+theorem integratePos_quatsOf (ts : List JType) (h : ℝ) : ∀ (qp qv qp' : List ℝ),
+    integratePos ts qp qv h = some qp' →
+    ∃ qs ws, quatsOf ts qp = some qs ∧ qs.length = ws.length ∧
+      quatsOf ts qp' = some (List.zipWith (fun q w => integrateQuat q w h) qs ws) := by
+  induction ts with
+  | nil =>
+    intro qp qv qp' H
+    rcases qp with _ | ⟨a, qp⟩ <;> rcases qv with _ | ⟨b, qv⟩ <;> simp [integratePos] at H
+    subst H
+    exact ⟨[], [], by simp [quatsOf], rfl, by simp [quatsOf]⟩
+  | cons t ts ih =>
+    intro qp qv qp' H
+    cases t with
+    | free =>
+      rcases qp with _ | ⟨p0, _ | ⟨p1, _ | ⟨p2, _ | ⟨q0, _ | ⟨q1, _ | ⟨q2, _ | ⟨q3, qp2⟩⟩⟩⟩⟩⟩⟩ <;>
+        try (simp [integratePos, take3, take4] at H; done)
+      rcases qv with _ | ⟨v0, _ | ⟨v1, _ | ⟨v2, _ | ⟨w0, _ | ⟨w1, _ | ⟨w2, qv2⟩⟩⟩⟩⟩⟩ <;>
+        try (simp [integratePos, take3, take4] at H; done)
+      cases hr : integratePos ts qp2 qv2 h with
+      | none => simp [integratePos, take3, take4, hr] at H
+      | some rest =>
+      simp [integratePos, take3, take4, hr] at H
+      subst H
+      obtain ⟨qs, ws, h1, h2, h3⟩ := ih _ _ _ hr
+      refine ⟨(q0, q1, q2, q3) :: qs, (w0, w1, w2) :: ws, ?_, by simp [h2], ?_⟩
+      · simp [quatsOf, take3, take4, h1]
+      · simp [quatsOf, take3, take4, h3]
+    | ball =>
+      rcases qp with _ | ⟨q0, _ | ⟨q1, _ | ⟨q2, _ | ⟨q3, qp2⟩⟩⟩⟩ <;>
+        try (simp [integratePos, take3, take4] at H; done)
+      rcases qv with _ | ⟨w0, _ | ⟨w1, _ | ⟨w2, qv2⟩⟩⟩ <;>
+        try (simp [integratePos, take3, take4] at H; done)
+      cases hr : integratePos ts qp2 qv2 h with
+      | none => simp [integratePos, take3, take4, hr] at H
+      | some rest =>
+      simp [integratePos, take3, take4, hr] at H
+      subst H
+      obtain ⟨qs, ws, h1, h2, h3⟩ := ih _ _ _ hr
+      refine ⟨(q0, q1, q2, q3) :: qs, (w0, w1, w2) :: ws, ?_, by simp [h2], ?_⟩
+      · simp [quatsOf, take4, h1]
+      · simp [quatsOf, take4, h3]
+    | slide =>
+      rcases qp with _ | ⟨x, qp2⟩ <;> try (simp [integratePos, take1] at H; done)
+      rcases qv with _ | ⟨v, qv2⟩ <;> try (simp [integratePos, take1] at H; done)
+      cases hr : integratePos ts qp2 qv2 h with
+      | none => simp [integratePos, take1, hr] at H
+      | some rest =>
+      simp [integratePos, take1, hr] at H
+      subst H
+      obtain ⟨qs, ws, h1, h2, h3⟩ := ih _ _ _ hr
+      exact ⟨qs, ws, by simp [quatsOf, take1, h1], h2, by simp [quatsOf, take1, h3]⟩
+    | hinge =>
+      rcases qp with _ | ⟨x, qp2⟩ <;> try (simp [integratePos, take1] at H; done)
+      rcases qv with _ | ⟨v, qv2⟩ <;> try (simp [integratePos, take1] at H; done)
+      cases hr : integratePos ts qp2 qv2 h with
+      | none => simp [integratePos, take1, hr] at H
+      | some rest =>
+      simp [integratePos, take1, hr] at H
+      subst H
+      obtain ⟨qs, ws, h1, h2, h3⟩ := ih _ _ _ hr
+      exact ⟨qs, ws, by simp [quatsOf, take1, h1], h2, by simp [quatsOf, take1, h3]⟩
+
+/-- the result of `mj_integratePosInd` has the length of `qpos` -/
+theorem integratePos_length' (ts : List JType) (h : ℝ) : ∀ (qp qv qp' : List ℝ),
+    integratePos ts qp qv h = some qp' → qp'.length = qp.length := by
+  induction ts with
+  | nil =>
+    intro qp qv qp' H
+    rcases qp with _ | ⟨a, qp⟩ <;> rcases qv with _ | ⟨b, qv⟩ <;> simp [integratePos] at H
+    subst H; rfl
+  | cons t ts ih =>
+    intro qp qv qp' H
+    cases t with
+    | free =>
+      rcases qp with _ | ⟨p0, _ | ⟨p1, _ | ⟨p2, _ | ⟨q0, _ | ⟨q1, _ | ⟨q2, _ | ⟨q3, qp2⟩⟩⟩⟩⟩⟩⟩ <;>
+        try (simp [integratePos, take3, take4] at H; done)
+      rcases qv with _ | ⟨v0, _ | ⟨v1, _ | ⟨v2, _ | ⟨w0, _ | ⟨w1, _ | ⟨w2, qv2⟩⟩⟩⟩⟩⟩ <;>
+        try (simp [integratePos, take3, take4] at H; done)
+      cases hr : integratePos ts qp2 qv2 h with
+      | none => simp [integratePos, take3, take4, hr] at H
+      | some rest =>
+      simp [integratePos, take3, take4, hr] at H
+      subst H
+      simp [ih _ _ _ hr]
+    | ball =>
+      rcases qp with _ | ⟨q0, _ | ⟨q1, _ | ⟨q2, _ | ⟨q3, qp2⟩⟩⟩⟩ <;>
+        try (simp [integratePos, take3, take4] at H; done)
+      rcases qv with _ | ⟨w0, _ | ⟨w1, _ | ⟨w2, qv2⟩⟩⟩ <;>
+        try (simp [integratePos, take3, take4] at H; done)
+      cases hr : integratePos ts qp2 qv2 h with
+      | none => simp [integratePos, take3, take4, hr] at H
+      | some rest =>
+      simp [integratePos, take3, take4, hr] at H
+      subst H
+      simp [ih _ _ _ hr]
+    | slide =>
+      rcases qp with _ | ⟨x, qp2⟩ <;> try (simp [integratePos, take1] at H; done)
+      rcases qv with _ | ⟨v, qv2⟩ <;> try (simp [integratePos, take1] at H; done)
+      cases hr : integratePos ts qp2 qv2 h with
+      | none => simp [integratePos, take1, hr] at H
+      | some rest =>
+      simp [integratePos, take1, hr] at H
+      subst H
+      simp [ih _ _ _ hr]
+    | hinge =>
+      rcases qp with _ | ⟨x, qp2⟩ <;> try (simp [integratePos, take1] at H; done)
+      rcases qv with _ | ⟨v, qv2⟩ <;> try (simp [integratePos, take1] at H; done)
+      cases hr : integratePos ts qp2 qv2 h with
+      | none => simp [integratePos, take1, hr] at H
+      | some rest =>
+      simp [integratePos, take1, hr] at H
+      subst H
+      simp [ih _ _ _ hr]
+
+theorem forall_zipWith {β γ δ : Type} (f : β → γ → δ) (P : δ → Prop) (hP : ∀ a b, P (f a b)) :
+    ∀ (l1 : List β) (l2 : List γ), ∀ x ∈ List.zipWith f l1 l2, P x := by
+  intro l1 l2 x hx
+  rw [List.mem_iff_getElem] at hx
+  obtain ⟨i, hi, rfl⟩ := hx
+  rw [List.getElem_zipWith]
+  exact hP _ _
+
+/-! ### `mju_addToScl` combinations -/
+
+theorem axpy_nil (s : ℝ) : axpy ([] : List ℝ) [] s = [] := rfl
+theorem axpy_cons (r v : ℝ) (rs vs : List ℝ) (s : ℝ) : axpy (r :: rs) (v :: vs) s = (r + v * s) :: axpy rs vs s := rfl
+
+def map3 (f : ℝ → ℝ → ℝ → ℝ) : List ℝ → List ℝ → List ℝ → List ℝ
+  | a :: as, b :: bs, c :: cs => f a b c :: map3 f as bs cs
+  | _, _, _ => []
+def map4 (f : ℝ → ℝ → ℝ → ℝ → ℝ) : List ℝ → List ℝ → List ℝ → List ℝ → List ℝ
+  | a :: as, b :: bs, c :: cs, d :: ds => f a b c d :: map4 f as bs cs ds
+  | _, _, _, _ => []
+
+theorem comb1_eq (n : ℕ) (a : ℝ) : ∀ (x : List ℝ), x.length = n → comb n [(x, a)] = x.map (fun u => a * u) := by
+  induction n with
+  | zero => intro x hx; rw [List.length_eq_zero_iff.mp hx]; rfl
+  | succ n ih =>
+    intro x hx
+    rcases x with _ | ⟨u, x⟩
+    · simp at hx
+    · have := ih x (by simpa using hx)
+      simp only [comb, List.foldl_cons, List.foldl_nil, List.replicate_succ, axpy_cons, List.map_cons] at this ⊢
+      rw [this]
+      simp only [real_ofInt, Int.cast_zero, zero_add, mul_comm]
+
+theorem comb2_eq (n : ℕ) (a b : ℝ) : ∀ (x y : List ℝ), x.length = n → y.length = n →
+    comb n [(x, a), (y, b)] = List.zipWith (fun u v => a * u + b * v) x y := by
+  induction n with
+  | zero => intro x y hx hy; rw [List.length_eq_zero_iff.mp hx, List.length_eq_zero_iff.mp hy]; rfl
+  | succ n ih =>
+    intro x y hx hy
+    rcases x with _ | ⟨u, x⟩
+    · simp at hx
+    rcases y with _ | ⟨v, y⟩
+    · simp at hy
+    have := ih x y (by simpa using hx) (by simpa using hy)
+    simp only [comb, List.foldl_cons, List.foldl_nil, List.replicate_succ, axpy_cons, List.zipWith_cons_cons] at this ⊢
+    rw [this]
+    congr 1
+    simp only [real_ofInt, Int.cast_zero]; ring
+
+theorem comb3_eq (n : ℕ) (a b c : ℝ) : ∀ (x y z : List ℝ), x.length = n → y.length = n → z.length = n →
+    comb n [(x, a), (y, b), (z, c)] = map3 (fun u v w => a * u + b * v + c * w) x y z := by
+  induction n with
+  | zero =>
+    intro x y z hx hy hz
+    rw [List.length_eq_zero_iff.mp hx, List.length_eq_zero_iff.mp hy, List.length_eq_zero_iff.mp hz]; rfl
+  | succ n ih =>
+    intro x y z hx hy hz
+    rcases x with _ | ⟨u, x⟩
+    · simp at hx
+    rcases y with _ | ⟨v, y⟩
+    · simp at hy
+    rcases z with _ | ⟨w, z⟩
+    · simp at hz
+    have := ih x y z (by simpa using hx) (by simpa using hy) (by simpa using hz)
+    simp only [comb, List.foldl_cons, List.foldl_nil, List.replicate_succ, axpy_cons, map3] at this ⊢
+    rw [this]
+    congr 1
+    simp only [real_ofInt, Int.cast_zero]; ring
+
+theorem comb4_eq (n : ℕ) (a b c e : ℝ) : ∀ (x y z t : List ℝ), x.length = n → y.length = n → z.length = n →
+    t.length = n →
+    comb n [(x, a), (y, b), (z, c), (t, e)] = map4 (fun u v w s => a * u + b * v + c * w + e * s) x y z t := by
+  induction n with
+  | zero =>
+    intro x y z t hx hy hz ht
+    rw [List.length_eq_zero_iff.mp hx, List.length_eq_zero_iff.mp hy, List.length_eq_zero_iff.mp hz,
+      List.length_eq_zero_iff.mp ht]; rfl
+  | succ n ih =>
+    intro x y z t hx hy hz ht
+    rcases x with _ | ⟨u, x⟩
+    · simp at hx
+    rcases y with _ | ⟨v, y⟩
+    · simp at hy
+    rcases z with _ | ⟨w, z⟩
+    · simp at hz
+    rcases t with _ | ⟨s, t⟩
+    · simp at ht
+    have := ih x y z t (by simpa using hx) (by simpa using hy) (by simpa using hz) (by simpa using ht)
+    simp only [comb, List.foldl_cons, List.foldl_nil, List.replicate_succ, axpy_cons, map4] at this ⊢
+    rw [this]
+    congr 1
+    simp only [real_ofInt, Int.cast_zero]; ring
+
+theorem axpy_eq (r v : List ℝ) (s : ℝ) : axpy r v s = List.zipWith (fun a b => a + s * b) r v := by
+  simp only [axpy]
+  congr 1
+  funext a b
+  ring
+
 end MjProof.Integrate
